@@ -295,6 +295,92 @@ def analyse_module(tree, relpath):
     return findings, len(state) + len(class_state), nfuncs
 
 
+MUTATORS = {"update", "pop", "popitem", "discard", "add", "remove", "clear", "append", "extend", "insert", "setdefault", "sort", "reverse", "difference_update", "intersection_update", "symmetric_difference_update"}
+
+
+def analyse_shared_state(tree):
+    """Findings about state that every caller / every instance shares without having asked for it:
+    (A) a mutable object (dict / list / set literal or constructor call) as a plain class attribute - one object for all
+        instances (dataclasses reject this for fields; an un-annotated attribute, or a non-dataclass class, slips through);
+    (B) a module-level table that a function modifies in place - directly or through a local alias - under a key that
+        does not derive from the function's parameters (a parameter-derived key is a memo and is judged by rule M proper):
+        the first call changes what every later call sees."""
+    out = []
+    ctor_names = {"dict", "list", "set", "defaultdict", "OrderedDict", "collections.defaultdict", "collections.OrderedDict", "deque", "collections.deque"}
+
+    def mutable_literal(v):
+        if isinstance(v, (ast.Dict, ast.List, ast.Set, ast.ListComp, ast.DictComp, ast.SetComp)):
+            return True
+        return isinstance(v, ast.Call) and ast.unparse(v.func) in ctor_names
+
+    # (A)
+    for node in ast.walk(tree):
+        if not isinstance(node, ast.ClassDef):
+            continue
+        bases = {ast.unparse(b).split(".")[-1] for b in node.bases}
+        if bases & {"Enum", "IntEnum", "StrEnum", "Flag"}:
+            continue
+        for st in node.body:
+            tgt = val = None
+            if isinstance(st, ast.Assign) and len(st.targets) == 1 and isinstance(st.targets[0], ast.Name):
+                tgt, val = st.targets[0].id, st.value
+            elif isinstance(st, ast.AnnAssign) and isinstance(st.target, ast.Name) and st.value is not None:
+                tgt, val = st.target.id, st.value
+            if tgt and not tgt.startswith("__") and mutable_literal(val):
+                out.append(MemoFinding(f"{node.name}", st.lineno, f"{node.name}.{tgt}", ["<every instance>"], "mutable class attribute: one object shared by all instances (and by everything that reads it through self)"))
+    # (B)
+    tables = {}
+    for node in tree.body:
+        tgt = val = None
+        if isinstance(node, ast.Assign) and len(node.targets) == 1 and isinstance(node.targets[0], ast.Name):
+            tgt, val = node.targets[0].id, node.value
+        elif isinstance(node, ast.AnnAssign) and isinstance(node.target, ast.Name) and node.value is not None:
+            tgt, val = node.target.id, node.value
+        if tgt and mutable_literal(val):
+            tables[tgt] = node.lineno
+    if tables:
+        for fn in [n for n in ast.walk(tree) if isinstance(n, (ast.FunctionDef, ast.AsyncFunctionDef))]:
+            params = {a.arg for a in fn.args.posonlyargs + fn.args.args + fn.args.kwonlyargs}
+            local_assigned = set()
+            alias = {}
+            for n in ast.walk(fn):
+                if isinstance(n, ast.Assign) and len(n.targets) == 1 and isinstance(n.targets[0], ast.Name):
+                    if isinstance(n.value, ast.Name) and (n.value.id in tables or n.value.id in alias) and n.value.id not in params:
+                        alias[n.targets[0].id] = alias.get(n.value.id, n.value.id)
+                    else:
+                        local_assigned.add(n.targets[0].id)
+            def table_of(expr):
+                if isinstance(expr, ast.Name) and expr.id not in params:
+                    if expr.id in alias:
+                        return alias[expr.id]
+                    if expr.id in tables and expr.id not in local_assigned:
+                        return expr.id
+                return None
+            def param_derived(expr):
+                return expr is not None and any(isinstance(x, ast.Name) and (x.id in params or x.id in local_assigned) for x in ast.walk(expr))
+            for n in ast.walk(fn):
+                t = key = None
+                if isinstance(n, (ast.Assign, ast.AugAssign)):
+                    for tg in (n.targets if isinstance(n, ast.Assign) else [n.target]):
+                        if isinstance(tg, ast.Subscript) and table_of(tg.value):
+                            t, key = table_of(tg.value), tg.slice
+                        elif isinstance(n, ast.AugAssign) and table_of(tg):
+                            t, key = table_of(tg), None
+                elif isinstance(n, ast.Delete):
+                    for tg in n.targets:
+                        if isinstance(tg, ast.Subscript) and table_of(tg.value):
+                            t, key = table_of(tg.value), tg.slice
+                elif isinstance(n, ast.Call) and isinstance(n.func, ast.Attribute) and n.func.attr in MUTATORS and table_of(n.func.value):
+                    t = table_of(n.func.value)
+                    key = n.args[0] if n.args else None
+                    if n.func.attr == "update" and n.keywords and not n.args:
+                        key = None  # update(name=value): constant keys
+                if t is None or param_derived(key):
+                    continue
+                out.append(MemoFinding(fn.name, n.lineno, t, ["<every later call>"], f"module-level table modified in place ({'through the alias, ' if not (isinstance(getattr(n, 'func', None), ast.Attribute) and isinstance(n.func.value, ast.Name) and n.func.value.id == t) else ''}under a key that does not derive from the arguments): the first call changes what all later calls see"))
+    return out
+
+
 def _scan_class(cnode, prefix, scan):
     for st in cnode.body:
         if isinstance(st, (ast.FunctionDef, ast.AsyncFunctionDef)):
@@ -328,9 +414,31 @@ def _is_class_state(node, class_state):
     return isinstance(node, ast.Attribute) and node.attr in class_state and isinstance(node.value, ast.Name)
 
 
+SELFTEST_SHARED = '''
+_OPTS = {"kind": "linear"}
+_COLS = {"a", "b"}
+_TABLE = {"x": (1, 2)}
+class A:
+    shared = {}
+    names = ("a", "b")
+def f(density):
+    opts = _OPTS
+    if density:
+        opts["fill_value"] = "extrapolate"
+    return dict(fill_value=0, **_OPTS)
+def g(t):
+    need = _COLS
+    need.discard("b")
+def h(k):
+    return _TABLE[k]
+'''
+
+
 def selftest():
     f, _n, _k = analyse_module(ast.parse(SELFTEST_SRC), "<selftest>")
-    return len(f) == 1 and f[0].func == "f" and set(f[0].missing) == {"b", "c"}
+    sh = analyse_shared_state(ast.parse(SELFTEST_SHARED))
+    ok_shared = sorted((x.func, x.state) for x in sh) == [("A", "A.shared"), ("f", "_OPTS"), ("g", "_COLS")]
+    return len(f) == 1 and f[0].func == "f" and set(f[0].missing) == {"b", "c"} and ok_shared
 
 
 def check_modules(ctx, rule, module_names):
@@ -343,6 +451,7 @@ def check_modules(ctx, rule, module_names):
     for mn in module_names:
         m = ctx.P.module(mn)
         findings, nstate, nfuncs = analyse_module(m.tree, m.relpath)
+        findings = list(findings) + analyse_shared_state(m.tree)
         total_funcs += nfuncs
         if not findings:
             ctx.ok(
